@@ -25,6 +25,7 @@ const (
 	HkBinary       = byte('B')
 	HkBoolean      = byte('b')
 	HkDefault      = byte('d')
+	HkEnd          = byte(4) // ends a sequence of keys; no key starts with it
 	HkEntry        = byte('E')
 	HkFloat        = byte('f')
 	HkHash         = byte('H')
@@ -585,6 +586,7 @@ func appendKey(b *bytes.Buffer, v px.Value) {
 				appendTypeParamKey(b, p)
 			}
 		}
+		b.WriteByte(HkEnd)
 	} else if hk, ok := v.(px.HashKeyValue); ok {
 		b.Write([]byte(hk.ToKey()))
 	} else {
@@ -598,10 +600,10 @@ func appendTypeParamKey(b *bytes.Buffer, v px.Value) {
 	if h, ok := v.(*Hash); ok {
 		b.WriteByte(2)
 		h.EachPair(func(k, v px.Value) {
-			b.Write([]byte(k.String()))
-			b.WriteByte(3)
+			appendKey(b, k)
 			appendTypeParamKey(b, v)
 		})
+		b.WriteByte(HkEnd)
 	} else {
 		appendKey(b, v)
 	}
